@@ -9,25 +9,28 @@ from . import famcheck
 from .. import families, framework, corpus
 
 _CHILD = r'''
-import sys, json, hashlib, os
+import sys, json, hashlib, os, io, contextlib
 REPO = os.environ.get("VERIF_REPO", "/repo")
 os.chdir(REPO)
-import io, contextlib
 with contextlib.redirect_stdout(io.StringIO()):
     import rzilcompiler.Helper as H
-H.LOG_LEVEL = -1
-from lark import Lark
+    H.LOG_LEVEL = -1
+    from rzilcompiler.Compiler import Compiler
+    from rzilcompiler.ArchEnum import ArchEnum
+    from rzilcompiler.Parser import parse_single, InsnParsingBundle
+    c = Compiler(ArchEnum.HEXAGON)          # the REAL parser construction (Compiler.set_lark_parser)
 texts = json.load(open(sys.argv[1]))
 grammar = open(REPO + "/Resources/Hexagon/grammar.lark").read()
 out = {}
-reused = Lark(grammar, start="fbody", parser="earley")
 for i, t in enumerate(texts):
     res = []
-    for parser in (Lark(grammar, start="fbody", parser="earley") if i % 4 == 0 else reused, reused):
-        try:
-            res.append(hashlib.sha256(parser.parse(t).pretty().encode()).hexdigest()[:16])
-        except Exception as e:
-            res.append("EXC:" + type(e).__name__)
+    try:
+        res.append(hashlib.sha256(c.parser.parse(t).pretty().encode()).hexdigest()[:16])   # reused parser object
+    except Exception as e:
+        res.append("EXC:" + type(e).__name__)
+    if i % 3 == 0:
+        r = parse_single(InsnParsingBundle(grammar, "x", [t]))["x"]                          # fresh parser object, real pool worker code
+        res.append("EXC:" + r.exception.name if r.exception else hashlib.sha256(r.asts[0].pretty().encode()).hexdigest()[:16])
     out[str(i)] = res
 print(json.dumps(out))
 '''
@@ -46,6 +49,8 @@ def _determinism(rep, texts, nseeds):
     procs = []
     for k in range(nseeds):
         env = dict(os.environ, PYTHONHASHSEED=str(k * 7919 + 1))
+        if os.environ.get("VERIF_REPO"):
+            env["PYTHONPATH"] = os.environ["VERIF_REPO"] + ":" + env.get("PYTHONPATH", "")
         procs.append(subprocess.Popen([sys.executable, cf, tf], stdout=subprocess.PIPE, stderr=subprocess.DEVNULL, env=env))
     outs = []
     for p in procs:
@@ -66,7 +71,7 @@ def _determinism(rep, texts, nseeds):
                     f"and fresh/reused parser objects: {sorted(flat)[:4]}")
         else:
             rep.add(f"parse:{t}", "ok")
-    rep.coverage["determinism"] = dict(texts=len(texts), processes=len(good), parser_objects="fresh every 4th text + one reused per process",
+    rep.coverage["determinism"] = dict(texts=len(texts), processes=len(good), parser_objects="the Compiler's own parser object (reused) + a fresh parse_single() parser for every 3rd text",
                                        note="concrete runs (hash seed / process dimension is enumerated, not solved)")
 
 
@@ -75,7 +80,16 @@ def run(tier):
     rng = random.Random(framework.seed())
     B = corpus.load_behaviors()
     names = sorted(n for n in B if len(B[n][0]) < 400)
-    texts = rng.sample(progs, 60 if tier == "quick" else 200) + [B[n][0] for n in rng.sample(names, 20 if tier == "quick" else 80)]
+    # behaviours with the constructs whose parse is ambiguous in the grammar ('{...};', empty statements, casts of signed operands,
+    # statement-expressions) first, then a seeded sample of the rest
+    prone = [n for n in names if any(("};" in b or "} ;" in b or "; ;" in b or "({" in b) for b in B[n])]
+    own = ["{ { RxV = 1; }; RyV = RxV; }", "{ { { RxV = 1; }; }; }", "{ if (RsV) { RxV = 1; }; RyV = 2; }", "{ for (i = 0; i < 2; i++) { RxV = RxV + i; }; }",
+           "{ ; ; RxV = 1; ; }", "{ RxV = (int32_t) -RsV; }", "{ RxxV = (size8s_t) -1; }", "{ RxxV = (uint64_t) +RssV; }", "{ RxV = (RsV) - RtV; }",
+           "{ RxV = (int8_t) ~RsV; }", "{ RxV = ({ RyV = 3; RyV; }); }", "{ { int32_t q; q = RsV; RxV = q; }; }"]
+    pick = rng.sample(prone, min(len(prone), 60 if tier == "quick" else 189))
+    rest = [n for n in names if n not in set(pick)]
+    texts = own + rng.sample(progs, 40 if tier == "quick" else 200) + [B[n][0] for n in pick] + \
+        [B[n][0] for n in rng.sample(rest, 30 if tier == "quick" else 120)]
     nseeds = 8 if tier == "quick" else 32
 
     def post(rep, recs):
